@@ -1,8 +1,15 @@
 mod common;
+mod grp;
+mod model;
 mod props;
+mod report;
+mod run;
+mod snap;
+mod tree;
 mod util;
 
 use common::Tier;
+use props::grouping::Which;
 use std::path::Path;
 
 fn usage() -> ! {
@@ -10,14 +17,37 @@ fn usage() -> ! {
     std::process::exit(2)
 }
 
+fn check(id: &str, tier: Tier) -> i32 {
+    match id {
+        "C01" => props::grouping::check(Which::C01, tier),
+        "C03" => props::grouping::check(Which::C03, tier),
+        "C17" => props::c17::check(tier),
+        _ => {
+            eprintln!("unknown property {}", id);
+            2
+        }
+    }
+}
+
+fn replay(id: &str, f: &Path) -> i32 {
+    match id {
+        "C01" => props::grouping::replay(Which::C01, f),
+        "C03" => props::grouping::replay(Which::C03, f),
+        "C17" => props::c17::replay(f),
+        _ => 2,
+    }
+}
+
 fn main() {
     let args: Vec<String> = std::env::args().collect();
+    if args.first().map(|a| a.ends_with("fcv-tr")).unwrap_or(false) {
+        std::process::exit(grp::helper_main(&args));
+    }
     if args.len() < 3 {
         usage();
     }
     let code = match args[1].as_str() {
         "check" => {
-            let id = args[2].as_str();
             let mut tier = match std::env::var("VERIF_TIER").as_deref() {
                 Ok("thorough") => Tier::Thorough,
                 _ => Tier::Quick,
@@ -29,23 +59,13 @@ fn main() {
                     _ => usage(),
                 };
             }
-            match id {
-                "C17" => props::c17::check(tier),
-                _ => {
-                    eprintln!("unknown property {}", id);
-                    2
-                }
-            }
+            check(&args[2], tier)
         }
         "replay" => {
             if args.len() < 4 {
                 usage();
             }
-            let f = Path::new(&args[3]);
-            match args[2].as_str() {
-                "C17" => props::c17::replay(f),
-                _ => 2,
-            }
+            replay(&args[2], Path::new(&args[3]))
         }
         _ => usage(),
     };
